@@ -138,6 +138,9 @@ class SMI(Machine):
             if isinstance(sink, RString):
                 sink.s = self.rope_join([sink.s] + (text if isinstance(text, list) else [text]))
                 return OK(())
+            if isinstance(sink, list):          # Vec<u8> as io::Write: keeps the text pieces
+                sink.extend(text if isinstance(text, list) else [text])
+                return OK(())
             raise Unsupported('write_fmt into %r' % (sink,))
         if sink.fail_at is not None:
             if self.branch(sink.fail_at == sink.n):
